@@ -15,7 +15,7 @@ class SCase:
 
 class SProducer:
     def __init__(self, R, n_universes, types_per_u, values_per_t, depth=2, make_opts=None, pass_through=True,
-                 universe_filter=None, make_universe=None):
+                 universe_filter=None, make_universe=None, canonical=False):
         self.R, self.rng = R, R.rng
         self.cfg = (n_universes, types_per_u, values_per_t, depth)
         self.cases, self.universes, self.hooks = [], [], []
@@ -23,6 +23,7 @@ class SProducer:
         self.pass_through = pass_through
         self.universe_filter = universe_filter
         self.make_universe = make_universe
+        self.canonical = canonical
 
     def run(self):
         rng = self.rng
@@ -39,7 +40,7 @@ class SProducer:
                 continue
             uidx = len(self.universes)
             self.universes.append((f"U{uidx}", universe_coq(u)))
-            VG = S.ValueGen(rng, U)
+            VG = S.ValueGen(rng, U, canonical=self.canonical)
             types = []
             for cid in range(len(u["classes"])):
                 types.append(("obj", cid))
